@@ -61,7 +61,7 @@ CHECKS = {
                 text="High-water marks must not grow with size (log growth allowed for windowed plain files).",
                 note="-", ref="4/C17"),
     "C18": dict(cat="fault_enumeration", tech="signal injection at sampled instants and hook-defined phases + TMPDIR leftovers oracle + planned-delay promptness test",
-                text="Compressed/archived journal+evtx sources extracted concurrently; normal runs under schedules and SIGINT at each phase; TMPDIR must be empty after exit.",
+                text="Compressed/archived journal+evtx sources extracted concurrently; normal runs under schedules and SIGINT at each phase; TMPDIR must be empty after exit. Promptness: a worker planned silent for 8 s (hooked), and hook-free runs (no trace, no delays) of a source that takes seconds to extract, alone and beside 3..30 finished sources, judged against the uninterrupted run's duration.",
                 note="kernel delivers SIGINT to the ctrlc thread as in production", ref="4/C18"),
     "C19": dict(cat="exploration", tech="summary parser vs stdout counts and generator ground truth across windows and decoration options",
                 text="stdout with and without --summary identical; printed bytes/lines/messages equal to stdout; per-file counts add up; first/last datetimes and bounds are the run's.",
